@@ -12,6 +12,13 @@ COMMON_NOTE = (
 )
 
 CHECKS = {
+    "C04": dict(
+        technique="bounded-exhaustive enumeration of documents (content class x size x name) x protocols x handler lists, plus deviation-bounded DFS over short-read patterns of the VFS file object, on the implementation",
+        text="Every document of the cross product content classes x sizes around each multiple of the 4096-byte copy block x names (spaces, reserved URL characters, non-UTF-8, encodings, unknown and upper-case extensions) is fetched through 10 protocol forms under both handler lists; "
+             "the body must equal the file (gunzip/bunzip2 of it where decompression is configured), WAP's WML must invert line by line to the source, a Gopher+ length must equal the bytes that follow, HEAD must equal GET's headers with no body, "
+             "and the advertised MIME type must equal an independent reading of conf/mime.types and the encoding map. All patterns of short reads (n / n-1 / 1 bytes per read) within the deviation bound are explored for three file sizes x five protocols.",
+        design_ref="DESIGN.md 3/C04",
+    ),
     "C10": dict(
         technique="explicit-state breadth-first search over operation histories (listings through 4 protocols, directory mutations, virtual-clock advances) on the implementation, checked step by step against an explicit cache model with a caching-off twin server as reference",
         text="All histories over the operation menu up to the depth bound (states de-duplicated on directory contents, unpickled cache entries, capped cache age and model snapshot) are replayed on a fresh world under a virtual clock; "
